@@ -285,3 +285,124 @@ Proof.
   intros H. apply (f_equal (fun r => map (fun d => s_acb (d_post d)) (fst r))) in H.
   vm_compute in H. discriminate H.
 Qed.
+
+(* ======================================================================
+   One row WITH rounding (Proofs/DecRowError.v).
+   [T j] = 10^j, [u j] = 1/(2 * 10^(28-j)): half a unit of the last place
+   rust_decimal keeps for a result of magnitude at most 10^j. *)
+From ACB Require Import Proofs.DecRowError.
+Local Close Scope Z_scope.
+Local Open Scope Qc_scope.
+
+(* one operation, in terms of the magnitude of its exact result *)
+Theorem C01_rounding_error_by_magnitude : forall (x r : Qc) (j : nat),
+  (j <= 28)%nat -> fit x = Some r -> - T j <= x -> x <= T j ->
+  x - u j <= r /\ r <= x + u j.
+Proof. exact DecRowError.fit_within. Qed.
+Check C01_rounding_error_by_magnitude : forall (x r : Qc) (j : nat),
+  (j <= 28)%nat -> fit x = Some r -> - T j <= x -> x <= T j ->
+  x - u j <= r /\ r <= x + u j.
+Print Assumptions C01_rounding_error_by_magnitude.
+
+(* The cost base after a Buy row, from a rounded and an exact pre-state whose
+   cost bases differ by at most eps: shares, price and commission at most
+   10^k, both exchange rates at most 10, the cost base so far at most
+   10^(2k+1).  Each of the five operations of the arm (price x shares, x rate,
+   commission x rate, their sum, the sum with the old cost base) adds at most
+   half a unit of its last place: the new cost bases differ by at most
+   eps + 10 u(2k) + 4 u(2k+2) = eps + 2.05 * 10^-(26-2k)
+   (k = 6: quantities up to a million, error growth 2.05e-14 per row). *)
+Theorem C01_buy_row_error : forall (k : nat) (eps : Qc) t pre_d pre_e sh aps com rate crate od oe dd de,
+  (2 * k + 2 <= 28)%nat ->
+  t_act t = Buy sh aps com rate crate -> valid_tx t = true ->
+  s_acb pre_d = Some od -> s_acb pre_e = Some oe ->
+  oe - eps <= od -> od <= oe + eps ->
+  sh <= T k -> aps <= T k -> com <= T k -> rate <= T 1 -> crate <= T 1 ->
+  0 <= od -> od <= T (2 * k + 1) ->
+  delta_nonsell dec t pre_d = Ok dd -> delta_nonsell exact t pre_e = Ok de ->
+  exists nd ne,
+    s_acb (d_post dd) = Some nd /\ s_acb (d_post de) = Some ne /\
+    ne = oe + (aps * sh * rate + com * crate) /\
+    ne - (eps + u (2 * k) * T 1 + (1 + 1 + 1 + 1) * u (2 * k + 2)) <= nd /\
+    nd <= ne + (eps + u (2 * k) * T 1 + (1 + 1 + 1 + 1) * u (2 * k + 2)).
+Proof. exact DecRowError.buy_row_error_pow10. Qed.
+Check C01_buy_row_error : forall (k : nat) (eps : Qc) t pre_d pre_e sh aps com rate crate od oe dd de,
+  (2 * k + 2 <= 28)%nat ->
+  t_act t = Buy sh aps com rate crate -> valid_tx t = true ->
+  s_acb pre_d = Some od -> s_acb pre_e = Some oe ->
+  oe - eps <= od -> od <= oe + eps ->
+  sh <= T k -> aps <= T k -> com <= T k -> rate <= T 1 -> crate <= T 1 ->
+  0 <= od -> od <= T (2 * k + 1) ->
+  delta_nonsell dec t pre_d = Ok dd -> delta_nonsell exact t pre_e = Ok de ->
+  exists nd ne,
+    s_acb (d_post dd) = Some nd /\ s_acb (d_post de) = Some ne /\
+    ne = oe + (aps * sh * rate + com * crate) /\
+    ne - (eps + u (2 * k) * T 1 + (1 + 1 + 1 + 1) * u (2 * k + 2)) <= nd /\
+    nd <= ne + (eps + u (2 * k) * T 1 + (1 + 1 + 1 + 1) * u (2 * k + 2)).
+Print Assumptions C01_buy_row_error.
+
+(* the general form: separate bounds for the product price x shares (10^j1),
+   the rate (R), the commission in CAD (C), the old cost base (O), all values
+   of the arm below 10^J *)
+Theorem C01_buy_row_error_general : forall (j1 J : nat) (R C O eps : Qc) t pre_d pre_e sh aps com rate crate od oe dd de,
+  (j1 <= 28)%nat -> (J <= 28)%nat ->
+  t_act t = Buy sh aps com rate crate -> valid_tx t = true ->
+  s_acb pre_d = Some od -> s_acb pre_e = Some oe ->
+  oe - eps <= od -> od <= oe + eps ->
+  aps * sh <= T j1 -> rate <= R -> com * crate <= C -> 0 <= od -> od <= O ->
+  O + (T j1 + 1) * R + C + (1 + 1 + 1) <= T J ->
+  delta_nonsell dec t pre_d = Ok dd -> delta_nonsell exact t pre_e = Ok de ->
+  exists nd ne,
+    s_acb (d_post dd) = Some nd /\ s_acb (d_post de) = Some ne /\
+    ne = oe + (aps * sh * rate + com * crate) /\
+    ne - (eps + u j1 * R + (1 + 1 + 1 + 1) * u J) <= nd /\
+    nd <= ne + (eps + u j1 * R + (1 + 1 + 1 + 1) * u J).
+Proof. exact DecRowError.buy_row_error. Qed.
+Check C01_buy_row_error_general : forall (j1 J : nat) (R C O eps : Qc) t pre_d pre_e sh aps com rate crate od oe dd de,
+  (j1 <= 28)%nat -> (J <= 28)%nat ->
+  t_act t = Buy sh aps com rate crate -> valid_tx t = true ->
+  s_acb pre_d = Some od -> s_acb pre_e = Some oe ->
+  oe - eps <= od -> od <= oe + eps ->
+  aps * sh <= T j1 -> rate <= R -> com * crate <= C -> 0 <= od -> od <= O ->
+  O + (T j1 + 1) * R + C + (1 + 1 + 1) <= T J ->
+  delta_nonsell dec t pre_d = Ok dd -> delta_nonsell exact t pre_e = Ok de ->
+  exists nd ne,
+    s_acb (d_post dd) = Some nd /\ s_acb (d_post de) = Some ne /\
+    ne = oe + (aps * sh * rate + com * crate) /\
+    ne - (eps + u j1 * R + (1 + 1 + 1 + 1) * u J) <= nd /\
+    nd <= ne + (eps + u j1 * R + (1 + 1 + 1 + 1) * u J).
+Print Assumptions C01_buy_row_error_general.
+
+(* Non-vacuity (k = 2): 3.5 shares at 7.77 USD (rate 1.3456) plus 9.99
+   commission, bought from a cost base of 10/3 (exact) resp.
+   3.3333333333333333333333333333 (rounded; eps = 10^-28): every hypothesis
+   holds, both arms succeed, and the two new cost bases do differ. *)
+Local Open Scope Z_scope.
+Definition bre_t : tx := mk 100 (Buy (q 35 10) (q 777 100) (q 999 100) (q 13456 10000) (q 13456 10000)) default_aff.
+Definition bre_pre (acb : Qc) : status := {| s_sh := q 2 1; s_all := q 2 1; s_acb := Some acb |}.
+Definition bre_od : Qc := q 33333333333333333333333333333 10000000000000000000000000000.
+Definition bre_oe : Qc := q 10 3.
+Definition bre_eps : Qc := q 1 10000000000000000000000000000.
+Local Close Scope Z_scope.
+Example C01_buy_row_error_nonvacuous :
+  valid_tx bre_t = true /\
+  (bre_oe - bre_eps <= bre_od /\ bre_od <= bre_oe + bre_eps) /\
+  (q 35 10 <= T 2 /\ q 777 100 <= T 2 /\ q 999 100 <= T 2 /\ q 13456 10000 <= T 1) /\
+  (0 <= bre_od /\ bre_od <= T (2 * 2 + 1)) /\
+  is_ok (delta_nonsell dec bre_t (bre_pre bre_od)) = true /\
+  is_ok (delta_nonsell exact bre_t (bre_pre bre_oe)) = true /\
+  match delta_nonsell dec bre_t (bre_pre bre_od), delta_nonsell exact bre_t (bre_pre bre_oe) with
+  | Ok dd, Ok de => match s_acb (d_post dd), s_acb (d_post de) with
+                    | Some nd, Some ne => this nd <> this ne
+                    | _, _ => False
+                    end
+  | _, _ => False
+  end.
+Proof.
+  split; [vm_compute; reflexivity|].
+  split; [split; vm_compute; discriminate|].
+  split; [repeat split; vm_compute; discriminate|].
+  split; [split; vm_compute; discriminate|].
+  split; [vm_compute; reflexivity|]. split; [vm_compute; reflexivity|].
+  vm_compute. discriminate.
+Qed.
